@@ -200,8 +200,14 @@ impl Parser for Markdown {
                 | pulldown_cmark::Event::End(pulldown_cmark::TagEnd::Heading(_))
                 | pulldown_cmark::Event::End(pulldown_cmark::TagEnd::CodeBlock)
                 | pulldown_cmark::Event::End(pulldown_cmark::TagEnd::TableCell) => {
+                    // The cursor still points at the start of the element's last inline event:
+                    // never place the break before the end of the tokens emitted so far.
+                    let break_at = tokens
+                        .last()
+                        .map_or(traversed_chars, |t: &Token| t.span.end.max(traversed_chars));
+
                     tokens.push(Token {
-                        span: Span::new_with_len(traversed_chars, 0),
+                        span: Span::new_with_len(break_at, 0),
                         kind: TokenKind::ParagraphBreak,
                     });
                     stack.pop();
